@@ -5,6 +5,7 @@
 import IcingaProofs.C14.Lemmas
 import IcingaProofs.C14.SerialLemmas
 import IcingaProofs.C14.FsLemmas
+import IcingaProofs.C14.DumpLemmas
 import IcingaProofs.C20
 
 namespace Icinga.C14
@@ -223,6 +224,54 @@ example : specM (N := Int) [] sampleObj.fields
         [(['n', 'o', 't', 'e', 's'], .str ['x']),
          (vars, .obj [(['a'], .str ['s']), (['d'], .obj [(['k'], .num 1)]), (['e'], .obj []), (['x'], .null)])])]
     = some .restoreIdentity := by decide
+
+/-! ## (a') runtime modifications across a restart: DumpModifiedAttributes and its replay -/
+
+/-- **modification_survives_restart.**  On a never-modified object, a modification satisfying the
+    hypotheses of `modify_restore_partial` (existing path holding a non-dictionary, or a top-level
+    attribute) survives the stop/start cycle unchanged: `DumpModifiedAttributes` writes exactly that one
+    `modify_attribute(p, v)` and its replay onto the freshly loaded object reproduces the object —
+    attribute tree and original attributes. -/
+theorem modification_survives_restart {N : Type} (o : Obj N) (p : Path) (v old : JValue N)
+    (hnone : o.original = none)
+    (hex : getPath o.fields p = some old)
+    (hleaf : p.length = 1 ∨ isDict old = false) :
+    ∃ o1, modify o p v = .ok o1 ∧ dumpModified o1 = [(p, v)] ∧ replayModified o (dumpModified o1) = o1 := by
+  obtain ⟨s', happly, hdump⟩ := dump_after_mods [(p, v)] [] o (by simp [origOf, hnone]) (by simp)
+    (by intro e he; simp at he; subst he; exact ⟨old, hex, hleaf⟩) (by simp) (by simp)
+  simp only [applyAll] at happly
+  cases hm : modify o p v with
+  | error e => simp [hm] at happly
+  | ok o1 =>
+    simp only [hm, Option.some.injEq] at happly
+    subst happly
+    refine ⟨o1, rfl, by simpa using hdump, ?_⟩
+    rw [show dumpModified o1 = [(p, v)] by simpa using hdump]
+    simp [replayModified, hm]
+
+/-- **modifications_survive_restart.**  The same for a whole list of modifications of a never-modified
+    object: every path exists and holds a non-dictionary (or is a top-level attribute), no two paths are
+    prefix-related (distinct outermost paths), and the modifications are made in the order of their
+    attribute strings (the order in which `original_attributes` iterates; independence of the order is not
+    proved).  Then all of them succeed, `DumpModifiedAttributes` writes exactly the list, and the replay at
+    start-up onto the freshly loaded object reproduces the object exactly. -/
+theorem modifications_survive_restart {N : Type} (o : Obj N) (ms : List (Path × JValue N))
+    (hnone : o.original = none)
+    (hex : ∀ e ∈ ms, ∃ old, getPath o.fields e.1 = some old ∧ (e.1.length = 1 ∨ isDict old = false))
+    (hpw : ms.Pairwise (fun a b => Unrel a.1 b.1 ∧ keyLt (joinPath b.1) (joinPath a.1) = false)) :
+    ∃ o', applyAll o ms = some o' ∧ dumpModified o' = ms ∧ replayModified o (dumpModified o') = o' := by
+  obtain ⟨s', happly, hdump⟩ := dump_after_mods ms [] o (by simp [origOf, hnone]) (by simp) hex (by simp) hpw
+  have hd : dumpModified s' = ms := by simpa using hdump
+  exact ⟨s', happly, hd, by rw [hd]; exact replay_of_applyAll ms o s' happly⟩
+
+-- the hypotheses are satisfiable on two nested leaves and a top-level attribute, and the conclusion is what evaluation gives
+example : (applyAll sampleObj [([['n', 'o', 't', 'e', 's']], .str ['y']), ([vars, ['a']], .num 7), ([vars, ['d'], ['k']], .obj [])]).map dumpModified
+    = some [([['n', 'o', 't', 'e', 's']], .str ['y']), ([vars, ['a']], .num 7), ([vars, ['d'], ['k']], .obj [])] := by decide
+-- regressions for F-C14e / F-C14h (fixed in /repo by 999361f, 1d70162): stale nested entries are not dumped
+example : (applyAll sampleObj [([vars, ['a']], .obj [(['x'], .num 1)]), ([vars, ['a']], .num 5)]).map dumpModified
+    = some [([vars, ['a']], .num 5)] := by decide
+example : (applyAll sampleObj [([vars, ['a']], .obj [(['x'], .num 1)]), ([vars, ['a']], .obj [(['y'], .num 2)])]).map dumpModified
+    = some [([vars, ['a']], .obj [(['y'], .num 2)]), ([vars, ['a'], ['y']], .num 2)] := by decide
 
 /-! ## (b) the state file -/
 
